@@ -197,7 +197,8 @@ class _Helper:
         self.name = node.name
         self.is_method = cls is not None
         self.params = _params(node)
-        if self.is_method and self.params and self.params[0] == "self":
+        self.static = any(isinstance(d, ast.Name) and d.id == "staticmethod" for d in node.decorator_list)
+        if self.is_method and not self.static and self.params and self.params[0] == "self":
             self.params = self.params[1:]
         a = node.args
         pos = a.posonlyargs + a.args
@@ -219,11 +220,11 @@ class _Helper:
         n = self.node
         if isinstance(n, ast.AsyncFunctionDef):
             return "async"
-        if n.decorator_list:
+        if n.decorator_list and not (len(n.decorator_list) == 1 and isinstance(n.decorator_list[0], ast.Name) and n.decorator_list[0].id == "staticmethod"):
             return "decorated"
         if n.args.vararg or n.args.kwarg:
             return "varargs"
-        if self.is_method and (not _params(n) or _params(n)[0] != "self"):
+        if self.is_method and not self.static and (not _params(n) or _params(n)[0] != "self"):
             return "not an instance method"
         for x in ast.walk(n):
             if isinstance(x, (ast.Yield, ast.YieldFrom, ast.Global, ast.Nonlocal)):
